@@ -120,6 +120,11 @@ POS = {
     "variant": lambda R, S, i: "union V%d(m: %s, n: int)\nlet v%d = V%d::m(%s);" % (i, R, i, i, S),
     "return": lambda R, S, i: "fn g%d()->%s { %s }" % (i, R, S),
     "element": lambda R, S, i: "let v%d: Sequence<%s> = [%s];" % (i, R, S),
+    # argument of a call through a parameter of callable type / through a lambda held in a variable
+    "callparam": lambda R, S, i: "fn h%d(c: (%s)->(int))->int { c(%s) }" % (i, R, S),
+    "calllambda": lambda R, S, i: "let l%d = (x: %s) -> {0};\nlet v%d = l%d(%s);" % (i, R, i, i, S),
+    # default value of a parameter
+    "default": lambda R, S, i: "fn d%d(x: %s ?= %s)->int { 0 }" % (i, R, S),
 }
 
 
@@ -165,7 +170,7 @@ def run_style(chk, tier, seed, declared):
     allcases = [c for c in allcases if json.dumps(c["sup"], sort_keys=True) in good_sup]
     cases = [c for c in allcases if c["assign"] != "n/a"]
     if tier == "quick":
-        positions = ["let", "arg"] + [["field", "variant", "return", "element"][seed % 4]]
+        positions = ["let", "arg"] + [["field", "variant", "return", "element"][seed % 4]] + ["callparam", "calllambda", "default"]
     else:
         positions = list(POS)
         if len(cases) > 40000:
